@@ -198,7 +198,10 @@ type vfClientSrc struct {
 	Kind   string // "parrot", "randomized", "custom", "fingerprinted"
 	Name   string
 	ID     ClientHelloID
-	Spec   *ClientHelloSpec // applied via ApplyPreset when non-nil (ID is then HelloCustom)
+	Spec   *ClientHelloSpec // applied via ApplyPreset when non-nil (ID is then HelloCustom); single use
+	// SpecFn returns a FRESH spec per connection: ApplyPreset writes key shares and GREASE values into the spec's
+	// extension objects, and the library documents that a spec must not be shared between connections
+	SpecFn func() *ClientHelloSpec
 	SeedHx string
 }
 
@@ -263,13 +266,56 @@ func vfGenRandomizedID(t *rapid.T, label string) vfClientSrc {
 	return vfClientSrc{Kind: "randomized", Name: base.Client, ID: id, SeedHx: hex.EncodeToString(seedBytes[:8])}
 }
 
-// vfGenClientSrc draws a parrot (most of the time) or a randomized spec.
+// vfGenClientSrc draws a parrot (most of the time), a randomized spec, a handshake-capable generated custom spec or
+// a fingerprinted copy of a parrot's hello.
 func vfGenClientSrc(t *rapid.T, label string) vfClientSrc {
-	if rapid.IntRange(0, 9).Draw(t, label+"_kind") < 7 {
+	k := rapid.IntRange(0, 19).Draw(t, label+"_kind")
+	switch {
+	case k < 11:
 		p := vfGenParrot(t, label+"_parrot")
 		return vfClientSrc{Kind: "parrot", Name: p.Name, ID: p.ID}
+	case k < 15:
+		return vfGenRandomizedID(t, label)
+	case k < 18:
+		spec, meta := vfGenCustomSpec(t)
+		if meta.HandshakeCapable && !meta.HasPSK {
+			_ = spec
+			return vfClientSrc{Kind: "custom", Name: meta.Mode, ID: HelloCustom, SpecFn: meta.Build, SeedHx: vfHashHex([]byte(meta.TypeKey()))[:8]}
+		}
+		p := vfGenParrot(t, label+"_parrot")
+		return vfClientSrc{Kind: "parrot", Name: p.Name, ID: p.ID}
+	default:
+		p := vfGenParrot(t, label+"_parrot")
+		if src, ok := vfFingerprintedSrc(p); ok {
+			return src
+		}
+		return vfClientSrc{Kind: "parrot", Name: p.Name, ID: p.ID}
 	}
-	return vfGenRandomizedID(t, label)
+}
+
+// vfFingerprintedSrc builds the parrot's hello once, fingerprints the record and returns the resulting spec as a source.
+func vfFingerprintedSrc(p vfParrot) (vfClientSrc, bool) {
+	cp, _ := vfPipe()
+	defer cp.Close()
+	cfg := vfClientConfig("fingerprint.example")
+	cfg.OmitEmptyPsk = true
+	uc := UClient(cp, cfg, p.ID)
+	if err := uc.BuildHandshakeState(); err != nil {
+		return vfClientSrc{}, false
+	}
+	raw := uc.HandshakeState.Hello.Raw
+	rec := append([]byte{22, 3, 1, byte(len(raw) >> 8), byte(len(raw))}, raw...)
+	mk := func() *ClientHelloSpec {
+		spec, err := (&Fingerprinter{AllowBluntMimicry: true}).FingerprintClientHello(rec)
+		if err != nil {
+			return nil
+		}
+		return spec
+	}
+	if mk() == nil {
+		return vfClientSrc{}, false
+	}
+	return vfClientSrc{Kind: "fingerprinted", Name: p.Name, ID: HelloCustom, SpecFn: mk}, true
 }
 
 // ---- prepared client ----
@@ -294,8 +340,12 @@ func vfPrepareClient(src vfClientSrc, sni string, randSeed uint64, mod func(*Con
 		mod(ccfg)
 	}
 	uc := UClient(cp, ccfg, src.ID)
-	if src.Spec != nil {
-		if err := uc.ApplyPreset(src.Spec); err != nil {
+	spec := src.Spec
+	if src.SpecFn != nil {
+		spec = src.SpecFn()
+	}
+	if spec != nil {
+		if err := uc.ApplyPreset(spec); err != nil {
 			return nil, fmt.Errorf("ApplyPreset: %w", err)
 		}
 	}
@@ -373,7 +423,15 @@ func vfGenSrvChoice(t *rapid.T, o *vfOffer, label string) (c vfSrvChoice, ok boo
 		if len(groups) == 0 {
 			return c, false
 		}
-		if rapid.IntRange(0, 4).Draw(t, label+"_grpdefault") == 0 {
+		hybridWithoutShare := false
+		for _, g := range o.Groups {
+			if (g == vfGroupX25519MLKEM768) && !vfContains16(o.Shares, g) {
+				// a spec listing a hybrid group without a share: a default server would ask for it by HRR, which utls
+				// does not implement (documented); such a spec is the spec author's inconsistency, so pin a group
+				hybridWithoutShare = true
+			}
+		}
+		if rapid.IntRange(0, 4).Draw(t, label+"_grpdefault") == 0 && !hybridWithoutShare {
 			c.Group = 0
 		} else {
 			c.Group = groups[rapid.IntRange(0, len(groups)-1).Draw(t, label+"_grp")]
@@ -560,7 +618,13 @@ func vfGridRun(rt *rapid.T, st *vfStats, prop string, o vfGridOpts) *vfGridResul
 	}
 	scfg := o.SCfg
 	if scfg == nil {
-		scfg = vfServerConfigFor(choice, vfCertNames(sni)...)
+		// the certificate must be valid for the name the client verifies: an SNIExtension of a custom spec may carry
+		// its own name, which utls copies into Config.ServerName
+		names := vfCertNames(sni)
+		if n := p.CCfg.ServerName; n != "" && n != sni {
+			names = append(names, vfCertNames(n)...)
+		}
+		scfg = vfServerConfigFor(choice, names...)
 	}
 	pair := &vfPair{CP: p.CP, SP: p.SP, Cli: p.UC, Srv: Server(p.SP, scfg)}
 	if !o.KeepOpen {
@@ -568,6 +632,9 @@ func vfGridRun(rt *rapid.T, st *vfStats, prop string, o vfGridOpts) *vfGridResul
 	}
 	cerr, serr := pair.Handshake()
 	desc := fmt.Sprintf("%s sni=%s | %s", src, sni, choice)
+	if src.Kind == "custom" || src.Kind == "fingerprinted" {
+		desc += fmt.Sprintf(" [sigalgs %04x groups %04x shares %04x]", p.Offer.SigAlgs, p.Offer.Groups, p.Offer.Shares)
+	}
 	res := &vfGridResult{Prepared: p, Choice: choice, Pair: pair, SCfg: scfg, SNI: sni}
 
 	// which group did the server actually select?
